@@ -1,6 +1,7 @@
 package main
 
 import (
+	"math/rand"
 	"os"
 	"strconv"
 	"strings"
@@ -33,6 +34,25 @@ func splitCSV(s string) []string {
 		return nil
 	}
 	return strings.Split(s, ",")
+}
+
+// curScenario is the index of the scenario a SQL-level driver is running (recorded in its Reset event, so that a run
+// that ended with a recorded hang can be resumed behind that scenario: VERIF_START).
+var curScenario int
+
+func envStart() int {
+	v, err := strconv.Atoi(os.Getenv("VERIF_START"))
+	if err != nil || v < 0 {
+		return 0
+	}
+	return v
+}
+
+// scenarioRng: every scenario has a random stream of its own (seed, scenario index), so that scenario k is the same
+// whether the run started at 0 or was resumed
+func scenarioRng(sc int) *rand.Rand {
+	curScenario = sc
+	return rand.New(rand.NewSource(envSeed()*1000003 + int64(sc)*7919 + 17))
 }
 
 func envSeed() int64 {
